@@ -2,6 +2,8 @@ import Tcell.Model.Lookup
 import Tcell.Lemmas.Lookup
 import Tcell.Spec.TermSyntax
 import Tcell.Gen.TerminfoDB
+import Tcell.Gen.TerminfoKeys
+import Tcell.Lemmas.PrefixFree
 /-!
 # C14 — the built-in terminal database is complete and well-formed, lookups are stable
 
@@ -104,6 +106,21 @@ theorem db_colors_consistent : ∀ e ∈ Gen.db, colorsConsistent e = true := by
 example : colorsConsistent { colors := 8, setFg := [1], setBg := [2] } = true := by decide
 example : colorsConsistent { colors := 8, setFg := [1] } = false := by decide
 
+/-- the non-empty `Key*` capability strings of an entry -/
+def keyStrings (t : Terminfo) : List Bytes := t.keys.all.filter (fun s => !s.isEmpty)
+
+/-- Among the key sequences of an entry none is a proper prefix of another (two capabilities may carry the same
+    string).  Stated over the raw `Key*` capability strings; the table `prepareKeys` builds from them (with the
+    synthesized modifier variants) is C03's.  Decided with the sorted-adjacent certificate of `Lemmas/PrefixFree`
+    (`check_sound` lifts it to all pairs), linear in the number of keys. -/
+theorem db_keys_prefix_free :
+    ∀ e ∈ Gen.db, ∀ a ∈ keyStrings e, ∀ b ∈ keyStrings e, a ≠ b → ¬ a <+: b := by
+  have h : (Gen.db.all fun e => PrefixFree.check (keyStrings e)) = true := by decide +kernel
+  intro e he
+  exact PrefixFree.check_sound _ (List.all_eq_true.mp h e he)
+
+example : keyStrings { keys := { keyUp := [27, 79, 65], keyF1 := [27, 79, 80] } } = [[27, 79, 80], [27, 79, 65]] := by decide
+
 /-! ## Lookup layer: not found -/
 
 /-- `LookupTerminfo("")` fails (terminfo.go:694-698) and leaves the registry alone. -/
@@ -166,20 +183,6 @@ theorem not_found_pure (copy : Bool) (env : Env) (R : Registry) (name : Name)
 
 /-! ## Lookup layer: what a successful lookup returns -/
 
-/-- value of the entry after terminfo.go:750-779, as a function of the value found -/
-def finishVal (env : Env) (t : Terminfo) (addTC add256 : Bool) : Terminfo :=
-  let t1 := if env.finalTC addTC && rgbAllEmpty t then addRGB t else t
-  if add256 then set256 t1 else t1
-
-theorem get_amend (copy : Bool) (R : Registry) (r : Res) (f : Terminfo → Terminfo) :
-    (amend copy R r f).2.get (amend copy R r f).1 = f (R.get r) := by
-  cases copy <;> cases r <;> simp [amend, Registry.get, Registry.update, Registry.deref]
-
-theorem get_finish (copy : Bool) (env : Env) (R : Registry) (r : Res) (a b : Bool) :
-    (finish copy env R r a b).2.get (finish copy env R r a b).1 = finishVal env (R.get r) a b := by
-  unfold finish finishVal
-  by_cases h1 : (env.finalTC a && rgbAllEmpty (R.get r)) = true <;> cases b <;> simp [h1, get_amend]
-
 /-- A registered name: the entry found, amended with the ISO 8613-6 RGB strings exactly when 24-bit colour is
     requested (COLORTERM or the entry's `TrueColor` flag, overridden by TCELL_TRUECOLOR) and it has none. -/
 theorem lookup_registered (copy : Bool) (env : Env) (R : Registry) (name : Name) (id : EntryId)
@@ -197,6 +200,95 @@ theorem lookup_registered_value (copy : Bool) (env : Env) (R : Registry) (name :
   rw [lookup_registered copy env R name id hne h]
   simp only [resultOf, Option.map_some]
   rw [get_finish]; rfl
+
+/-- Which names resolve, stated independently of the lookup algorithm: a non-empty registered name; an unregistered
+    `B-truecolor` one of whose siblings `B-256color`, `B-88color`, `B-color`, `B` resolves; an unregistered `B-256color`
+    one of whose siblings `B-88color`, `B-color` resolves.  Nothing else. -/
+inductive Resolvable (R : Registry) : Name → Prop
+  | registered {n : Name} : n ≠ [] → (R.find n).isSome = true → Resolvable R n
+  | truecolor {base s : Name} : R.find (base ++ sfxTruecolor) = none → s ∈ sufTrue → Resolvable R (base ++ s) →
+      Resolvable R (base ++ sfxTruecolor)
+  | c256 {base s : Name} : R.find (base ++ sfx256color) = none → s ∈ suf256 → Resolvable R (base ++ s) →
+      Resolvable R (base ++ sfx256color)
+
+theorem resolvable_of_found (copy : Bool) (env : Env) :
+    ∀ (f : Nat) (R : Registry) (n : Name), (lookupF copy env f R n).1.isSome = true → Resolvable R n
+  | 0, _, _, h => by simp [lookupF] at h
+  | f + 1, R, n, h => by
+    simp only [lookupF, lookupBody] at h
+    by_cases hn : n = []
+    · simp [hn] at h
+    · simp only [hn, if_false] at h
+      cases hf : R.find n with
+      | some id => exact .registered hn (by simp [hf])
+      | none =>
+        cases hs : stripSuffix sfxTruecolor n with
+        | some base =>
+          have hnb := stripSuffix_some hs
+          cases hff : firstFound (lookupF copy env f) base sufTrue R with
+          | mk o R' =>
+            cases o with
+            | some r =>
+              obtain ⟨s, hs', hl⟩ := firstFound_some (lookupF_none_reg copy env f) base _ _ _ _ hff
+              have := resolvable_of_found copy env f R (base ++ s) (by rw [hl]; rfl)
+              subst hnb
+              exact .truecolor hf hs' this
+            | none =>
+              have h256 : stripSuffix sfx256color n = none := by rw [hnb]; exact stripSuffix_256_truecolor base
+              simp [searchTC, hf, hs, hff, search256, h256] at h
+        | none =>
+          cases hs2 : stripSuffix sfx256color n with
+          | some base =>
+            have hnb := stripSuffix_some hs2
+            cases hff : firstFound (lookupF copy env f) base suf256 R with
+            | mk o R' =>
+              cases o with
+              | some r =>
+                obtain ⟨s, hs', hl⟩ := firstFound_some (lookupF_none_reg copy env f) base _ _ _ _ hff
+                have := resolvable_of_found copy env f R (base ++ s) (by rw [hl]; rfl)
+                subst hnb
+                exact .c256 hf hs' this
+              | none => simp [searchTC, hf, hs, hff, search256, hs2] at h
+          | none => simp [searchTC, hf, hs, search256, hs2] at h
+
+theorem found_of_resolvable (copy : Bool) (env : Env) (R : Registry) (n : Name) (h : Resolvable R n) :
+    (lookupG copy env R n).1.isSome = true := by
+  induction h with
+  | @registered n hn hf =>
+    cases hid : R.find n with
+    | none => simp [hid] at hf
+    | some id => rw [lookup_registered copy env R n id hn hid]; rfl
+  | @truecolor base s h0 hs _ ih =>
+    have hne : base ++ sfxTruecolor ≠ [] := by simp [sfxTruecolor]
+    have hff := firstFound_isSome_of_exists (look := lookupG copy env)
+      (fun R n => lookupF_none_reg copy env _ R n) base sufTrue R ⟨s, hs, ih⟩
+    rw [lookupG_eq]
+    cases hfv : firstFound (lookupG copy env) base sufTrue R with
+    | mk o R' =>
+      rw [hfv] at hff
+      cases o with
+      | none => cases hff
+      | some r => simp [lookupBody, hne, searchTC, h0, stripSuffix_append, hfv, search256]
+  | @c256 base s h0 hs _ ih =>
+    have hne : base ++ sfx256color ≠ [] := by simp [sfx256color]
+    have hff := firstFound_isSome_of_exists (look := lookupG copy env)
+      (fun R n => lookupF_none_reg copy env _ R n) base suf256 R ⟨s, hs, ih⟩
+    rw [lookupG_eq]
+    cases hfv : firstFound (lookupG copy env) base suf256 R with
+    | mk o R' =>
+      rw [hfv] at hff
+      cases o with
+      | none => cases hff
+      | some r => simp [lookupBody, hne, searchTC, h0, stripSuffix_truecolor_256, stripSuffix_append, hfv, search256]
+
+/-- **unknown_not_found, full strength**: in every registry and environment, for the pinned and the repaired code, a
+    lookup succeeds exactly for the resolvable names; every other name (in particular `""`) yields `ErrTermNotFound`. -/
+theorem found_iff_resolvable (copy : Bool) (env : Env) (R : Registry) (n : Name) :
+    (lookupG copy env R n).1.isSome = true ↔ Resolvable R n :=
+  ⟨resolvable_of_found copy env _ R n, found_of_resolvable copy env R n⟩
+
+example : Resolvable R₀ (nm "eterm-256color") :=
+  .c256 (base := nm "eterm") (s := sfxColor) (by decide +kernel) (by decide) (.registered (by decide) (by decide +kernel))
 
 /-! ### the COLORTERM / TCELL_TRUECOLOR table -/
 
@@ -383,6 +475,12 @@ example : resultOf (lookupRepaired {} (lookupRepaired {} R₀ (nm "eterm-256colo
 /-- the repaired code still synthesizes: the statement above is not vacuous -/
 example : (resultOf (lookupRepaired {} R₀ (nm "eterm-256color"))).map (·.colors) = some 256 ∧
     (resultOf (lookupRepaired {} R₀ (nm "eterm-color"))).map (·.colors) = some 8 := by decide +kernel
+
+/-- **The repair keeps the behaviour of every single lookup**: in any registry and environment the pinned code and the
+    repaired code return the same entry value for the same name (they differ only in what they leave behind). -/
+theorem repair_preserves_lookup_value (env : Env) (R : Registry) (n : Name) :
+    resultOf (lookup env R n) = resultOf (lookupRepaired env R n) :=
+  lookupF_agree env _ R n
 
 /-- **Pinned code, witness 1** (probe of the design round): looking up `eterm-256color` turns the registered
     `eterm-color` entry into a 256-colour entry — a later lookup of `eterm-color` returns 256 colours instead of 8. -/
